@@ -5,7 +5,12 @@
 // inside a frame), a stalled peer, peer close, reconnects and Close.  One case = one seeded scenario.
 //
 // input :  sc <seed> P=<gomaxprocs> E=<emitters> B=<buffer> A=<attempts/emitter> close=<end|mid:k|stalled>
-//             conns=<plan,plan,...> ctl=<k:action,...>
+//             conns=<plan,plan,...> ctl=<k:action,...> [pad=<bytes>] [pb=<permille>] [storm=<bytes>] [rmin=<ns>] [mix=std|fu]
+//          pad    = padding appended to every event payload (the copy EmitFollowup makes of it sits between its checks)
+//          pb     = probability (per mille) that the builder of a lazy emit PANICS on the writer goroutine
+//          storm  = every connection after the planned ones dies once nodeinfo + rand(0..bytes) bytes were accepted
+//                   (reconnect storm); rmin = ReconnectMin = ReconnectMax in ns
+//          mix=fu = emitters alternate Emit / follow-up of the id just returned, without pausing on InvalidID
 //          plan   = ok | df (dial fails) | w<bytes> (write error once <bytes> bytes were accepted) | st (peer stops
 //                   reading after the node information until "gate") | st+w<bytes>
 //          action = stall (peer stops reading) | gate (peer reads again) | peer (peer closes the connection);
@@ -175,6 +180,11 @@ type scenario struct {
 	closeStalled bool
 	plans    []connPlan
 	ctl      []ctlAction
+	pad      int
+	panicPM  int
+	storm    int // -1 = off
+	rminNs   int
+	mixFu    bool
 }
 
 func parsePlan(s string) connPlan {
@@ -200,7 +210,7 @@ func parseScenario(input string) scenario {
 	if len(t) < 2 || t[0] != "sc" {
 		panic("verifh: bad case")
 	}
-	sc := scenario{seed: h.U(t[1]), procs: 4, emitters: 2, buffer: 4, attempts: 50, closeAt: -1}
+	sc := scenario{seed: h.U(t[1]), procs: 4, emitters: 2, buffer: 4, attempts: 50, closeAt: -1, storm: -1}
 	for _, kv := range t[2:] {
 		i := strings.IndexByte(kv, '=')
 		if i < 0 {
@@ -226,6 +236,16 @@ func parseScenario(input string) scenario {
 			default:
 				panic("verifh: bad close " + v)
 			}
+		case "pad":
+			sc.pad = h.I(v)
+		case "pb":
+			sc.panicPM = h.I(v)
+		case "storm":
+			sc.storm = h.I(v)
+		case "rmin":
+			sc.rminNs = h.I(v)
+		case "mix":
+			sc.mixFu = v == "fu"
 		case "conns":
 			if v != "-" {
 				for _, p := range strings.Split(v, ",") {
@@ -243,7 +263,7 @@ func parseScenario(input string) scenario {
 			panic("verifh: bad key " + k)
 		}
 	}
-	if sc.emitters < 1 || sc.emitters > 64 || sc.attempts > 100000 || sc.buffer < 1 {
+	if sc.emitters < 1 || sc.emitters > 64 || sc.attempts > 100000 || sc.buffer < 1 || sc.pad > 1<<16 {
 		panic("verifh: bad size")
 	}
 	if sc.closeAt >= 0 {
@@ -260,7 +280,17 @@ type emitRec struct {
 	parent    uint64
 }
 
-func u32le(v uint32) []byte { return []byte{byte(v), byte(v >> 8), byte(v >> 16), byte(v >> 24)} }
+const padByte = 0xAB
+
+// payload = tag (u32 LE) followed by pad bytes of padding
+func mkPayload(tag uint32, pad int) []byte {
+	b := make([]byte, 4+pad)
+	b[0], b[1], b[2], b[3] = byte(tag), byte(tag>>8), byte(tag>>16), byte(tag>>24)
+	for i := 4; i < len(b); i++ {
+		b[i] = padByte
+	}
+	return b
+}
 
 func nodeInfo() telemetry.NodeInfo {
 	ni := telemetry.NodeInfo{JAMParameters: []byte{1, 2, 3, 4, 5}, PeerPort: 30333, NodeFlags: 1,
@@ -284,12 +314,15 @@ func runScenario(sc scenario) string {
 	var connMu sync.Mutex
 	var conns []*fakeConn
 	dials := 0
+	dialRng := h.NewRng(sc.seed ^ 0x5bd1e995) // guarded by connMu
 	dial := func(ctx context.Context, addr string) (net.Conn, error) {
 		connMu.Lock()
 		defer connMu.Unlock()
 		p := connPlan{failAt: -1}
 		if dials < len(sc.plans) {
 			p = sc.plans[dials]
+		} else if sc.storm >= 0 {
+			p.failAt = nodeLen + dialRng.Intn(sc.storm+1)
 		}
 		dials++
 		if p.dialFail {
@@ -332,6 +365,10 @@ func runScenario(sc scenario) string {
 		CloseTimeout:     closeTimeout,
 		TailDropInterval: time.Duration(200+rng.Intn(1800)) * time.Microsecond,
 	}
+	if sc.rminNs > 0 {
+		cfg.ReconnectMin = time.Duration(sc.rminNs)
+		cfg.ReconnectMax = time.Duration(sc.rminNs)
+	}
 	cli, start, err := telemetry.VerifNewTCPClient(cfg, dial)
 	if err != nil {
 		panic("verifh: config " + err.Error())
@@ -361,7 +398,7 @@ func runScenario(sc scenario) string {
 		seeds[e] = rng.Fork()
 	}
 	var wg sync.WaitGroup
-	var emitterPanics atomic.Int32
+	var emitterPanics, builderPanics atomic.Int32
 	for e := 0; e < sc.emitters; e++ {
 		wg.Add(1)
 		go func(e int) {
@@ -374,45 +411,73 @@ func runScenario(sc scenario) string {
 			r := seeds[e]
 			var last, old uint64 = telemetry.InvalidID, telemetry.InvalidID
 			ctl := 0
-			afterClose := 0
+			afterClose, afterPanic := 0, 0
+			fresh := false
 			for k := 0; k < sc.attempts; k++ {
 				tag := uint32(e*sc.attempts + k)
 				rec := emitRec{tag: tag}
 				op := r.Intn(100)
+				if sc.mixFu { // Emit, then a follow-up of the id just returned, and so on
+					if fresh {
+						op = 70 + r.Intn(30)
+					} else {
+						op = r.Intn(70)
+					}
+				}
+				pay := mkPayload(tag, sc.pad)
+				builder := func() []byte { return pay }
+				if sc.panicPM > 0 && r.Intn(1000) < sc.panicPM {
+					builder = func() []byte { // an encoder bug: index out of range on the writer goroutine
+						builderPanics.Add(1)
+						var short []byte
+						return []byte{short[len(pay)]}
+					}
+				}
 				t0 := time.Now()
 				switch {
 				case op < 55:
-					rec.id = cli.Emit(discPlain, u32le(tag))
+					rec.id = cli.Emit(discPlain, pay)
 				case op < 70:
-					rec.id = cli.EmitLazy(discPlain, func() []byte { return u32le(tag) })
+					rec.id = cli.EmitLazy(discPlain, builder)
 				default:
 					parent := last
-					switch q := r.Intn(10); {
-					case q < 2:
-						parent = old
-					case q < 3:
-						parent = telemetry.InvalidID
+					if !sc.mixFu {
+						switch q := r.Intn(10); {
+						case q < 2:
+							parent = old
+						case q < 3:
+							parent = telemetry.InvalidID
+						}
 					}
 					if parent != telemetry.InvalidID {
 						rec.hasParent, rec.parent = true, parent
 					}
 					if op < 90 {
-						rec.id = cli.EmitFollowup(discFollow, parent, u32le(tag))
+						rec.id = cli.EmitFollowup(discFollow, parent, pay)
 					} else {
-						rec.id = cli.EmitFollowupLazy(discFollow, parent, func() []byte { return u32le(tag) })
+						rec.id = cli.EmitFollowupLazy(discFollow, parent, builder)
 					}
 				}
 				if d := time.Since(t0); d > maxLat[e] {
 					maxLat[e] = d
 				}
 				recs[e] = append(recs[e], rec)
+				fresh = rec.id != telemetry.InvalidID && !rec.hasParent
 				if rec.id != telemetry.InvalidID {
 					last = rec.id
 					if old == telemetry.InvalidID {
 						old = rec.id
 					}
+				} else if sc.mixFu {
+					runtime.Gosched()
 				} else {
 					time.Sleep(30 * time.Microsecond)
+				}
+				if builderPanics.Load() > 0 { // unchanged client: degraded from now on; a few more attempts, then stop
+					afterPanic++
+					if afterPanic > 40 {
+						break
+					}
 				}
 				if e == 0 {
 					for ctl < len(sc.ctl) && sc.ctl[ctl].at <= k {
@@ -526,7 +591,7 @@ func runScenario(sc scenario) string {
 					continue
 				}
 			}
-			tok := decodeEvent(body)
+			tok := decodeEvent(body, sc.pad)
 			switch tok[0] {
 			case 'e':
 				nEv++
@@ -561,12 +626,24 @@ func runScenario(sc scenario) string {
 			r.WriteString(fmt.Sprintf(":%d:%d", ep, sq))
 		}
 	}
-	return fmt.Sprintf("%s conns=%d est=%d ev=%d fu=%d dr=%d bad=%d emits=%d invalid=%d stalledwrites=%d ; W%s ; R%s",
-		verdict, nConn, nEst, nEv, nFu, nDr, nBad, len(flat), nInv, stalledWrites, w.String(), r.String())
+	return fmt.Sprintf("%s conns=%d est=%d ev=%d fu=%d dr=%d bad=%d emits=%d invalid=%d stalledwrites=%d builderpanics=%d ; W%s ; R%s",
+		verdict, nConn, nEst, nEv, nFu, nDr, nBad, len(flat), nInv, stalledWrites, builderPanics.Load(), w.String(), r.String())
 }
 
 // decodeEvent parses one event frame body with the package's own decoder.
-func decodeEvent(body []byte) string {
+func decodeEvent(body []byte, pad int) string {
+	padOK := func(d *telemetry.Decoder) bool {
+		p, err := d.ReadBytesN(pad)
+		if err != nil || !d.Done() {
+			return false
+		}
+		for _, b := range p {
+			if b != padByte {
+				return false
+			}
+		}
+		return true
+	}
 	d := telemetry.NewDecoder(body)
 	if _, err := d.ReadU64(); err != nil { // timestamp
 		return "x"
@@ -587,7 +664,7 @@ func decodeEvent(body []byte) string {
 		return "d" + strconv.FormatUint(n, 10)
 	case discPlain:
 		tag, err := d.ReadU32()
-		if err != nil || !d.Done() {
+		if err != nil || !padOK(d) {
 			return "x"
 		}
 		return "e" + strconv.FormatUint(uint64(tag), 10)
@@ -597,7 +674,7 @@ func decodeEvent(body []byte) string {
 			return "x"
 		}
 		tag, err := d.ReadU32()
-		if err != nil || !d.Done() {
+		if err != nil || !padOK(d) {
 			return "x"
 		}
 		return "f" + strconv.FormatUint(uint64(tag), 10) + "." + strconv.FormatUint(ps, 10)
@@ -630,6 +707,16 @@ func gen(rng *h.Rng, tier string, emit func(string)) {
 	nodeLen := 4 + len(niBytes)
 	pick := func(xs []int) int { return xs[rng.Intn(len(xs))] }
 	for i := 0; i < n; i++ {
+		if i%30 == 7 {
+			// reconnect storm: every connection dies after a few frames, immediate reconnects, emitters alternate
+			// Emit / follow-up of the id just returned without pausing: a follow-up call is regularly in flight
+			// while a whole disconnect -> epoch bump -> reconnect happens
+			pad := pick([]int{0, 64, 512, 2048, 2048})
+			emit(fmt.Sprintf("sc %d P=%d E=%d B=%d A=%d close=end conns=- ctl=- pad=%d storm=%d rmin=1 mix=fu", rng.U64()>>1,
+				pick([]int{2, 4, 8, 8, 16}), pick([]int{3, 4, 6, 8, 8}), pick([]int{2, 4, 8, 8}), 800+rng.Intn(900), pad, (1+rng.Intn(4))*(25+pad)))
+			st.Inc("reconnect-storm")
+			continue
+		}
 		E := pick([]int{1, 2, 2, 3, 4, 4, 6, 8})
 		B := pick([]int{1, 1, 2, 3, 4, 8, 16, 64})
 		A := 30 + rng.Intn(170)
@@ -692,7 +779,16 @@ func gen(rng *h.Rng, tier string, emit func(string)) {
 		if len(ctl) > 0 {
 			cs = strings.Join(ctl, ",")
 		}
-		emit(fmt.Sprintf("sc %d P=%d E=%d B=%d A=%d close=%s conns=%s ctl=%s", rng.U64()>>1, P, E, B, A, cl, strings.Join(plans, ","), cs))
+		extra := ""
+		if rng.Intn(4) == 0 { // some lazy builders panic on the writer goroutine
+			extra += fmt.Sprintf(" pb=%d", pick([]int{10, 30, 100, 300}))
+			st.Inc("panicking-builders")
+		}
+		if rng.Intn(5) == 0 {
+			extra += fmt.Sprintf(" pad=%d", pick([]int{1, 16, 300, 2048}))
+			st.Inc("padded-payloads")
+		}
+		emit(fmt.Sprintf("sc %d P=%d E=%d B=%d A=%d close=%s conns=%s ctl=%s%s", rng.U64()>>1, P, E, B, A, cl, strings.Join(plans, ","), cs, extra))
 		st.Inc(fmt.Sprintf("emitters-%d", E))
 		st.Inc(fmt.Sprintf("buffer-%d", B))
 		st.Inc(fmt.Sprintf("procs-%d", P))
